@@ -11,7 +11,9 @@ import (
 
 // (names with dashes: the digest string is dash-separated, and "t-" is a
 // string prefix but not a component prefix of "t-a")
-var c10Names = []string{"", "a", "a/b", "a/b/c", "ab", "b", "t-", "t-a", "t-a/b-c"}
+// (names with "." and ".." components: legal instance names, and plain
+// strings - "x/../a/c" is not below "a", "a/../b" is below "a" and "a/..")
+var c10Names = []string{"", "a", "a/b", "a/b/c", "ab", "b", "t-", "t-a", "t-a/b-c", "x/../a/c", "a/..", "a/../b", "."}
 
 func c10Profile(noEviction bool) func(c *sim.RunCtx) {
 	return func(c *sim.RunCtx) {
